@@ -320,31 +320,47 @@ class FakeQueue:
             raise EOFError("manager process has shut down")
 
     def put(self, obj, block: bool = True, timeout=None) -> None:
+        import queue as _queue
+
         payload = pickle.dumps(obj)
         if self.maxsize:
             # bounded queue: put blocks while the queue is full
             self.sim.probe("bounded_queue_put")
-            self.sim.sched_point(
+            ok = self.sim.timed_wait(
                 ("q.put", self.qid),
-                cond=lambda: len(self.items) < self.maxsize or self.manager.closed,
+                lambda: len(self.items) < self.maxsize or self.manager.closed,
+                timeout if block else 0,
             )
+            if not ok:
+                raise _queue.Full()
         else:
             self.sim.sched_point(("q.put", self.qid))
         self._check()
         self.items.append((payload, self.sim.hb_send()))
         self.nput += 1
 
+    def put_nowait(self, obj) -> None:
+        self.put(obj, block=False)
+
     def get(self, block: bool = True, timeout=None):
-        self.sim.sched_point(
+        import queue as _queue
+
+        ok = self.sim.timed_wait(
             ("q.get", self.qid),
-            cond=lambda: bool(self.items) or self.manager.closed,
+            lambda: bool(self.items) or self.manager.closed,
+            timeout if block else 0,
         )
+        if not ok:
+            raise _queue.Empty()
         if not self.items:
             self._check()
         payload, clock = self.items.popleft()
         self.sim.hb_recv(clock)
         self.nget += 1
         return pickle.loads(payload)
+
+    def get_nowait(self):
+        return self.get(block=False)
 
     def qsize(self) -> int:
         return len(self.items)
@@ -431,10 +447,8 @@ class FakeProcess:
     def join(self, timeout=None) -> None:
         if self.task is None:
             raise AssertionError("can only join a started process")
-        self.sim.sched_point(
-            ("proc.join", self.pid_), cond=lambda: self.task.state in ("done", "killed")
-        )
-        self.sim.hb_recv(self.task.vc)
+        if self.sim.timed_wait(("proc.join", self.pid_), lambda: self.task.state in ("done", "killed"), timeout):
+            self.sim.hb_recv(self.task.vc)
 
     def is_alive(self) -> bool:
         return self.task is not None and self.task.state not in ("done", "killed")
@@ -500,6 +514,9 @@ class patched:
         self._set(ycat, "multiprocessing", fake)
         self._set(ypar, "_num_processes", lambda: self.sim.cores)
         self._set(ylog, "default_timer", self.sim.clock)
+        from sim import fakefutures
+
+        fakefutures.install(self, self.sim)  # concurrent.futures executors, should the library use them
         return fake
 
     def __exit__(self, *exc) -> None:
